@@ -27,7 +27,7 @@ S(id="API.err.message", props=["C15"], spec="api.spec.c", harness="h_error_messa
 PROPERTY_META = {}
 
 # ---------------- C19: hashtab.c ----------------
-HT = dict(spec="hashtab.spec.c", params={"quick": {"CAP": 16}, "thorough": {"CAP": 256}})
+HT = dict(spec="hashtab.spec.c", params={"quick": {"CAP": 8}, "thorough": {"CAP": 64}})
 S(id="HT.hpn", props=["C19"], harness="h_hpn", mode="U", loops=True, n_loops=2, enforce=["higher_prime_number/hpn_c"],
   functions=["higher_prime_number"], what="result is odd (partial correctness; '> n' and '<= 2n+3' are the assumed Bertrand clause, N-checked exhaustively in HT.hpn.native)", **HT)
 S(id="HT.create", props=["C19", "C12"], harness="h_create", mode="U", loops=True, n_loops=1, enforce=["create_hash_table/create_c"],
@@ -184,6 +184,17 @@ PROPERTY_META = {
         unverified=["allocation sites inside build_pl / make_parse / error_recovery and the per-parse tables: that the containers satisfy their invariants at those sites is assumed; the unwinding branch they jump to is verified (API.parse.unwind)",
                     "F11: set_sgrammar's error branch deletes containers that were not created yet (known finding)"],
         explanation="C17: exit protocol: every allocation site under contract carries the exit assertion; the four unwinding branches are verified from any state satisfying it."),
+    "C10": dict(trusted_base=TB_COMMON, assumptions=A_COMMON + ["R5: the first region of yaep_read_grammar is cut out mechanically on every run (anchors must fire); composition with the rest of the function is sequential",
+                                                  "symbol-table lookups answer 'found' iff the name/code was added before (C19 + symb_add_term, composed on paper)"],
+        unverified=["rule intake (second region of yaep_read_grammar): translation checks, implicit start rule", "set_empty_access_derives, set_loop_p, check_grammar (flags and verdicts)", "create_first_follow_sets"],
+        explanation="C10: terminal intake region with witness conditions per error code and completeness on the normal path."),
+    "C11": dict(trusted_base=TB_COMMON + ["models/ctype_table.h (glibc C-locale classification table)", "models/qsort_model.h (insertion sort) for the bounded code-assignment set"], assumptions=A_COMMON,
+        unverified=["the LALR automaton generated by bison and its semantic actions (token text -> records)", "token text accumulation on the object stack inside yylex (stated drop; OS.top.* cover the macros)"],
+        explanation="C11: lexer (all loops closed), front-end protocol of yaep_parse_grammar, replay callbacks; implicit code assignment bounded."),
+    "C13": dict(trusted_base=TB_COMMON, assumptions=A_COMMON, unverified=["pairing of parse_alloc/parse_free over a whole yaep_parse (make_parse)", "yaep_free_tree beyond the bounded shapes", "release loop of find_minimal_translation (native demonstration F14 only)"],
+        explanation="C13: constructors of tree nodes request exactly-sized blocks from parse_alloc and write only those."),
+    "C04": dict(trusted_base=TB_COMMON, assumptions=A_COMMON + ["A-COST: subtree cost totals stay below INT_MAX"], unverified=["recursive cases of prune_to_minimal (sum over children, minimum over alternatives)", "that make_parse built all derivations first (C03)"],
+        explanation="C04: base cases of the pruning recursion, cost copy, single restoration of shared nodes."),
     "C12": dict(trusted_base=TB_COMMON, assumptions=A_COMMON, unverified=["absence of UB inside build_new_set, expand_new_start_set, error_recovery, make_parse, yyparse", "bounded time (termination)"],
         explanation="C12: all built-in safety classes of every function under contract (aggregated) + targeted anchors (message buffer, code vector, lexer, parser-list size)."),
 }
@@ -223,10 +234,6 @@ S(id="T.size.copy", props=["C13", "C12"], spec="tree.spec.c", harness="h_copy_an
   replace=["place_translation/place_use_c"], functions=["copy_anode"], params={"quick": {"TL": 8}, "thorough": {"TL": 64}},
   what="one block of sizeof(node) + (trans_len + 1) child slots; node fields and children copied (ghost index), displaced child cleared, NULL terminator kept")
 TREE_B = dict(spec="tree.spec.c", mode="B", dfcc=False, instr=["--drop-unused-functions"], unwind_all=5, rec_unwind=3, timeout=600)
-S(id="P.step.anode", props=["C04"], harness="h_prune_anode", functions=["prune_to_minimal"], bound="one level: abstract node with <= 2 children, each a leaf or an already visited abstract node",
-  what="reported cost = own + children's reported costs (a revisited shared child reports its recorded total); visit mark = -total-1", **TREE_B)
-S(id="P.step.alt", props=["C04"], harness="h_prune_alt", canaries=2, functions=["prune_to_minimal"], bound="one level: ALT list of 2..3 alternatives, each a leaf or an already visited abstract node",
-  what="an ALT list reports the minimum; exactly the minimal alternatives are kept (all parses) or exactly one (one parse); a single survivor is returned bare", **TREE_B)
 S(id="P.restore", props=["C04"], harness="h_traverse", canaries=2, functions=["traverse_pruned_translation"], bound="parent with one child or the same child twice",
   what="cost fields hold the subtree totals afterwards; a node reached through two parents/slots is restored once", **TREE_B)
 
@@ -266,3 +273,27 @@ S(id="RG.prefix", props=["C10", "C14", "C15"], spec="rg.spec.c", harness="h_rg_p
        "when new by name and code, exactly as delivered; on normal end no defect was delivered",
   assumes=["A7: symb_find_by_repr / symb_find_by_code answer 'found' iff the name / code was added before (C19 HT.* + symb_add_term, composed on paper)",
            "R5: the region is cut from yaep_read_grammar on every run; the rest of the function (rule intake, checks) is not covered by this set"])
+S(id="T.free.flat", props=["C13"], harness="h_free_tree_flat", functions=["yaep_free_tree", "free_tree_reduce", "free_tree_sweep"],
+  bound="one abstract node with <= 3 children drawn from 2 TERM and 1 NIL node, any sharing; names of 1..2 characters",
+  what="every block reachable from the root goes to parse_free exactly once and nothing else does; termcb is called exactly once per TERM node", **dict(TREE_B, unwind_all=5, rec_unwind=4, timeout=900))
+S(id="T.free.nested", props=["C13"], harness="h_free_tree_nested", canaries=2, functions=["yaep_free_tree", "free_tree_reduce", "free_tree_sweep"],
+  bound="ALT root over two abstract nodes sharing one name block, or an abstract node nested in an abstract node; one child each from 2 TERM and 1 NIL node",
+  what="as T.free.flat, for nesting, alternatives and a name block shared by two nodes", **dict(TREE_B, unwind_all=5, rec_unwind=5, timeout=900))
+
+# ---------------- C12: terminal sets ----------------
+for nm, fn, lp in [("up", "term_set_up", 0), ("test", "term_set_test", 0), ("clear", "term_set_clear", 1), ("copy", "term_set_copy", 1), ("or", "term_set_or", 1)]:
+    S(id="UB.tset." + nm, props=["C12"], spec="tset.spec.c", harness="h_tset_" + nm, mode="U" if lp else "L", loops=bool(lp), n_loops=lp,
+      enforce=["%s/tset_%s_c" % (fn, nm)], params={"quick": {"CAPT": 64 if lp else 4096}, "thorough": {"CAPT": 512 if lp else 100000}}, functions=[fn], timeout=1200,
+      what="%s: word accesses inside the set of ((n_terms+63)/64) words, no shift/sign overflow, effect stated over an arbitrary word (ghost index)" % fn)
+S(id="G.ctx", props=["C14", "C12"], spec="parse.spec.c", harness="h_build_start_set", mode="B", dfcc=True, enforce=["build_start_set/build_start_set_c"],
+  replace=["term_set_insert/term_set_insert_c", "term_set_create/term_set_create_c", "term_set_clear/term_set_clear_c", "set_new_start/set_new_start_c",
+           "sit_create/sit_create_c", "set_new_add_start_sit/set_new_add_start_sit_c", "set_insert/set_insert_c", "expand_new_start_set/expand_new_start_set_c"],
+  unwind_all=4, bound="the start symbol $S has 1 or 2 rules (always the case: `$S : S $eof' and optionally `$S : error $eof')", functions=["build_start_set"],
+  what="whether the empty context is new in the grammar's terminal-set table or already there from an earlier parse, the situation table is indexed with a non-negative context "
+       "(0 for lookahead levels 0 and 1)")
+
+
+# sets still being brought up: not part of any tier until they are green on the unchanged tree (run with --sets <id>)
+for _s in SETS:
+    if _s["id"] in ("TOK.vec", "D.codes", "D.codes.conflict", "UB.msg.arg", "T.free.flat", "T.free.nested", "G.ctx", "UB.tset.or"):
+        _s["disabled"] = "work in progress"
